@@ -19,6 +19,9 @@ type Clause struct {
 	Label string
 	Src   string
 	E     Expr
+	// Trusted: an ensures clause of a verified function that is assumed at call sites but NOT checked against the body
+	// ("trusted ensures ..."): a summary of what other packages rely on, listed in the evidence as trusted
+	Trusted bool
 }
 
 type LoopSpec struct {
@@ -138,7 +141,7 @@ func newSpecDB() *SpecDB {
 var labelRe = regexp.MustCompile(`^\[([A-Za-z0-9_.,\- ]+)\]`)
 
 var clauseKw = map[string]bool{"requires": true, "ensures": true, "modifies": true, "panics": true, "pure": true,
-	"assumed": true, "invariant": true, "decreases": true, "noinline": true}
+	"assumed": true, "invariant": true, "decreases": true, "noinline": true, "trusted": true}
 
 // parseSpecFile reads //@ lines of one file. pkgPath is the package whose scope resolves unqualified Go names
 // (for prelude files it is set by `//@ package "path"`).
@@ -376,6 +379,22 @@ func (db *SpecDB) parseSpecFile(file string, pkgPath string) {
 					cur.Props[id] = true
 				}
 			}
+			trusted := false
+			if w == "trusted" {
+				// trusted ensures [label] expr
+				if firstWord(rest) != "ensures" {
+					errf(en.ln, "only ensures clauses can be marked trusted")
+					continue
+				}
+				trusted = true
+				w = "ensures"
+				rest = strings.TrimSpace(rest[len("ensures"):])
+				label = ""
+				if m := labelRe.FindStringSubmatch(rest); m != nil {
+					label = strings.TrimSpace(m[1])
+					rest = strings.TrimSpace(rest[len(m[0]):])
+				}
+			}
 			switch w {
 			case "pure":
 				cur.Pure = true
@@ -436,7 +455,7 @@ func (db *SpecDB) parseSpecFile(file string, pkgPath string) {
 					errf(en.ln, "%v", err)
 					continue
 				}
-				cl := &Clause{Kind: w, Label: label, Src: rest, E: e}
+				cl := &Clause{Kind: w, Label: label, Src: rest, E: e, Trusted: trusted}
 				switch w {
 				case "requires":
 					cur.Requires = append(cur.Requires, cl)
